@@ -51,7 +51,9 @@ SNIPPETS = [
 IDENTS = ['B', 'x.B', 'a.b.C', 'a.b.c.D', '1B', 'B9', '_b', 'B\u00e9', 'b-c', 'B.', '.B', 'B..C', '', 'INT', 'INTx', 'ID', 'OBJECT', 'eolterm',
           'skipws', 'ws', 'import', 'as', 'reference', 'parent', 'STRICTFLOAT', 'BASETYPE', 'NUMBERS', 'b_c', 'B C',
           'imports', 'references', 'assembly', 'ImportList', 'References', 'EOLTERM', 'Eolterm', 'SKIPWS', 'Parent', 'AS', 'WS', 'NoSkipWs', 'importfoo', 'referencefoo', 'eoltermx', 'parents', 'asx', 'wsx', 'skipwsx', 'INTs']
-STRS = ["'a'", '"a"', "''", '""', "'\\''", '"\\""', "'a b'", "'\\n'", "' '", "'/'", "'['", "'a", 'a"', "'\u00e9'", "'\\u00e9'"]
+STRS = ["'a'", '"a"', "''", '""', "'\\''", '"\\""', "'a b'", "'\\n'", "' '", "'/'", "'['", "'a", 'a"', "'\u00e9'", "'\\u00e9'",
+        # strings ending in backslashes (an even number reads as escaped backslashes, an odd number escapes the quote)
+        "'dir\\\\'", '"dir\\\\"', "'\\\\'", "'a\\\\\\\\'", "'a\\\\\\'", "'x\\\\' name=ID '"]
 REGS = ['/a/', '/\\//', '/[a-z]+/', '/ /', '//', '/a\\\\/', '/(a)/', '/a/ ', '/a', '/\\d+(\\.\\d+)?/']
 TEMPLATES = [
     "{I}: 'x';", "A: {I};", "A: {I}*;", "A: {I}+[','];", "A: {I}-;", "A: {I}#;", "A: !{I} 'x';", "A: &{I} 'x';", "A: {I}={I};", "A: {I}+={I};",
